@@ -87,6 +87,9 @@ def parseAdapter (s : String) : Option Adapter :=
   | ["c", i, p] => do some (mkClient b64enc (← parseCps i) (← parseCps p))
   | ["t", t] => (parseCps t).map mkToken
   | ["x", t] => (parseCps t).map .trace
+  | ["X", t] => (parseCps t).map .trace      -- the same adapter, rebinding `req_args.headers` to a new dict first
+  | ["q", k, v] => do some (.addParam (← parseCps k) (← parseCps v))
+  | ["w", k] => (parseCps k).map .wrapData
   | ["u", k] => (parseCps k).map .unwrap
   | ["k"] => some .count
   | ["f"] => some .compact
@@ -131,7 +134,11 @@ def parseWrappers (s : String) : Option (List (Str × Comps) × List (Str × Str
   let ws ← (s.splitOn "/").mapM fun w =>
     match w.splitOn "=" with
     | [m, c] => do some ((← parseCps m, ← parseCompsTok c), none)
-    | [m, c, i] => do some ((← parseCps m, ← parseCompsTok c), some (← parseCps m, ← parseCps i))
+    | [m, c, i] =>
+      -- `*`: the body reaches get_conn() through a helper method shared by all wrappers (not a wrapper itself:
+      -- transparent for the stack walk)
+      if i = "*" then do some ((← parseCps m, ← parseCompsTok c), none)
+      else do some ((← parseCps m, ← parseCompsTok c), some (← parseCps m, ← parseCps i))
     | _ => none
   some (ws.map (·.1), ws.filterMap (·.2))
 
